@@ -131,9 +131,13 @@ class World:
         return out
 
 
-def check_routing(w, what, keys, problems, verb=None):
+def check_routing(w, what, keys, problems, verb=None, same_item_once=False):
     got = w.seen(verb)
     want = w.expect(keys)
+    if same_item_once:
+        # entries with the same wire key on the same server are one item: once or twice are both fine
+        got = {n: set(v) for n, v in got.items()}
+        want = {n: set(v) for n, v in want.items()}
     g = {n: sorted(v) for n, v in got.items()}
     e = {n: sorted(v) for n, v in want.items()}
     if g != e:
@@ -250,6 +254,17 @@ def run_alias(servers, prefix, pooling, order):
     check_routing(w, "alias-set_many", [pair], P)
     r = w.call("set_many", {plain: b"y"})
     check_routing(w, "alias-set_many", [plain], P)
+    # one multi-key call naming the same item key under different server keys (per-tenant sharding), and
+    # plain + pinned together: every entry is its own placement and is sent to its own server
+    sk2 = next((f"tk{i}" for i in range(50) if rendezvous(names, f"tk{i}") == rendezvous(names, "k1")), "tk0")
+    for group in ([pair, (sk2, "k1")], [(sk2, "k1"), pair], [plain, pair], [pair, plain], [pair, (sk2, "k1"), ("sk9", "k2")]):
+        for op in ("get_many", "gets_many"):
+            w.call(op, list(group))
+            check_routing(w, f"alias-{op}-same-item-key", group, P, same_item_once=True)
+        w.call("delete_many", list(group), noreply=False)
+        check_routing(w, "alias-delete_many-same-item-key", group, P, same_item_once=True)
+        w.call("set_many", {k: b"z" for k in group})
+        check_routing(w, "alias-set_many-same-item-key", group, P, same_item_once=True)
     return P
 
 
@@ -321,6 +336,8 @@ def _worker(job, chk):
     servers = SERVER_SETS[si]
     sets = [tuple(k for j, k in enumerate(UNIVERSE) if m >> j & 1) for m in range(256)]
     sets += [tuple(b) for b in big_sets()]
+    # an empty server key is a server key like any other
+    sets += [(("", "p4"),), ((b"", b"p5"), "k1"), (("", "p4"), ("sk1", "p1"), (b"", b"p5"), "k2"), (("", "q1"), ("", "q2"), ("", b"q3"))]
     for keys in sets:
         P = run_case(servers, keys, prefix, pooling)
         chk.add()
